@@ -1994,18 +1994,25 @@ func (x *actorSystem) stopCoalescedFailureDrain() {
 // enqueueCoalescedFailure is the CoalescingErrorHandler wired into the
 // outbound coalescer. It logs the whole-batch failure (operators still want
 // the "endpoint unreachable" signal with a destination) and hands the batch
-// off to the fan-out drain. Drops the handoff if the queue is full or the
-// system is shutting down.
+// off to the fan-out drain. When the hand-off is not possible (the queue is
+// full, or the system is shutting down and the queue is about to be closed)
+// the batch is dead-lettered inline on the caller's goroutine instead of
+// being dropped: every message of a failed batch gets its dead letter.
 func (x *actorSystem) enqueueCoalescedFailure(dest string, messages []*internalpb.RemoteMessage, cause error) {
 	x.logger.Warnf("coalesced remote tell to %s failed for %d message(s): %v", dest, len(messages), cause)
+	failure := coalescedFailure{dest: dest, messages: messages, cause: cause}
 	if x.shuttingDown.Load() || x.coalescedFailureQueue == nil {
+		// Never touch the queue here: shutdown closes it. Publication is
+		// best-effort at this point (the dead-letter actor may be gone).
+		x.publishCoalescedFailure(failure)
 		return
 	}
 
 	select {
-	case x.coalescedFailureQueue <- coalescedFailure{dest: dest, messages: messages, cause: cause}:
+	case x.coalescedFailureQueue <- failure:
 	default:
-		x.logger.Warnf("deadletter fan-out queue full, dropping %d message(s) to %s", len(messages), dest)
+		x.logger.Warnf("deadletter fan-out queue full, publishing %d message(s) to %s inline", len(messages), dest)
+		x.publishCoalescedFailure(failure)
 	}
 }
 
@@ -2018,19 +2025,29 @@ func (x *actorSystem) enqueueCoalescedFailure(dest string, messages []*internalp
 func (x *actorSystem) drainCoalescedFailures() {
 	defer x.coalescedFailureWG.Done()
 	for failure := range x.coalescedFailureQueue {
-		for _, m := range failure.messages {
-			receiver, err := address.Parse(m.GetReceiver())
-			if err != nil {
-				x.logger.Errorf("deadletter (coalesced): unparseable receiver %q: %v", m.GetReceiver(), err)
-				continue
-			}
-			payload, err := x.remoting.Serializer(nil).Deserialize(m.GetMessage())
-			if err != nil {
-				x.logger.Errorf("deadletter (coalesced): deserialize payload for %s: %v", receiver.String(), err)
-				continue
-			}
-			senderAddr := x.newRemoteSenderPID(m.GetSender()).getAddress()
-			x.deadLetterRemoteMessage(senderAddr, receiver, payload, failure.cause)
+		x.publishCoalescedFailure(failure)
+	}
+}
+
+// publishCoalescedFailure turns one failed coalesced batch into N dead-letter
+// publications. Shared by the fan-out drain goroutine and by the inline
+// fallback of enqueueCoalescedFailure.
+func (x *actorSystem) publishCoalescedFailure(failure coalescedFailure) {
+	if x.remoting == nil {
+		return
+	}
+	for _, m := range failure.messages {
+		receiver, err := address.Parse(m.GetReceiver())
+		if err != nil {
+			x.logger.Errorf("deadletter (coalesced): unparseable receiver %q: %v", m.GetReceiver(), err)
+			continue
 		}
+		payload, err := x.remoting.Serializer(nil).Deserialize(m.GetMessage())
+		if err != nil {
+			x.logger.Errorf("deadletter (coalesced): deserialize payload for %s: %v", receiver.String(), err)
+			continue
+		}
+		senderAddr := x.newRemoteSenderPID(m.GetSender()).getAddress()
+		x.deadLetterRemoteMessage(senderAddr, receiver, payload, failure.cause)
 	}
 }
